@@ -87,7 +87,7 @@ TOKEN = re.compile(r"""
     (?P<str>"(\\.|[^"\\])*") |
     (?P<id>[A-Za-z_][A-Za-z_0-9]*) |
     (?P<num>[0-9]+) |
-    (?P<op>==|=>|!=|&&|\|\||\+=|-=|::|\.\.|[{}()\[\];.,!=&<>+\-])
+    (?P<op>==|=>|!=|&&|\|\||\+=|-=|::|\.\.|>=|<=|[{}()\[\];.,!=&<>+\-:?*|])
 """, re.X)
 
 def tokenize(text):
@@ -1219,4 +1219,1299 @@ def crender(expr, indent, cfg, mode):
         return "%s.err %s" % (pad, expr[1])
     if k == "panic":
         return "%s.panic" % pad
+    fail("render: %r" % (k,))
+
+# =============================================================================================
+# fourth executor: whole straight-line FUNCTIONS over a line (`&Vec<char>`) and a hand-moved index
+# (the functions of duckscript/src/parser.rs built on `parse_next_value`).
+#
+# The translation is INDEX FAITHFUL and total: a function `fn f(..) -> Result<T, ScriptError>`
+# becomes `def fGen (..) : IOut T'` (`IOut` of DuckModel/ParserIndexed.lean: `.ok v`, `.err kind`,
+# `.panic`), with `.panic` produced exactly where Rust would unwind.
+#
+#   statements   let [mut] x [: T] = e ;   let (a, b) = e ;   x = e ;   x.f = e ;   x += n ;   x -= n ;
+#                if c {..} [else if .. | else {..}]     if let Some(x) = e {..} [else {..}] [;]
+#                match e { pat => {..} | pat => stmt|expr , … } [;]
+#                for _i in a..b {..}      loop {..}      break ;      return e ;
+#                x.push(e) ;  x.push_str(e) ;           a trailing expression (the value of the block)
+#                x = match .. {..} ;  let x = if .. {..} else {..} ;  let x = match .. {..} ;
+#                let x = f(..)? ;   x = f(..)? ;      (the early return of the `Err`)
+#   patterns     Ok(x)  Ok((a, b))  Err(e)  Some(x)  None  _
+#   expressions  literals (bool, char, "text", 123), locals, CONSTANTS (`static N: T = literal;`),
+#                None Some(e) Ok(e) Err(e) (a, b)   x.f   xs[i]   f(e, …)   Type::new()  vec![]
+#                Enum::Variant   Enum::Variant(e)   Struct { f, g: e }   &e   &mut x   !e
+#                e && e   e || e   == != < > <= >=   e + n   e - n
+#                .len() .is_empty() .clone() .to_string() .chars().collect() .trim() .trim_start()
+#                .trim_end() .trim_start_matches(c|"s") .trim_end_matches(c) .starts_with(c|"s")
+#                .is_some() .is_none() .unwrap()
+#
+# How things are rendered:
+#   * every local is a symbolic VALUE (integers as `base + constant`, so `index += 1; … index -= 1`
+#     folds and needs no underflow check; strings as a concatenation of literal pieces and
+#     expressions; `Option`s as `none` / `some v` / an opaque expression; a struct local as the map
+#     of its fields); what is known on the path is folded;
+#   * `xs[i]`                    →  `match rd xs i with | none => .panic | some x => …`
+#   * `i -= 1` not known ≥ 1     →  `match decr i with | none => .panic | some i' => …`
+#   * a call `f(..)` of a function listed in the configuration → a call of its Lean counterpart
+#     (a `…Gen` function of the same file, or the hand model's index-faithful function), the
+#     `InstructionMetaInfo` arguments dropped; `match f(..) { Ok(p) => A, Err(e) => B }` →
+#     `match <call> with | .panic => .panic | .err e => B | .ok p => A`  (a tuple `p` is taken
+#     apart in the pattern); a `&mut Struct` argument comes back as a second component of `.ok`;
+#   * `if x.is_none()` / `if x.is_some()` / `if let Some(v) = x` on an opaque option `x` →
+#     `match x with | none => … | some v => …`, the value being KNOWN in either arm (so a later
+#     `x.unwrap()` is `v` and needs no panic arm); `.unwrap()` of an opaque option anywhere else →
+#     the same `match` with `.panic` in the `none` arm;
+#   * `for _i in a..b { body }`  →  `match iFor (<fn>BodyGen params) (b - a) <state> with …`: the
+#     range is evaluated once, the STATE is the tuple of the locals the body assigns (ordered by
+#     type — Nat, Bool, Char, Str, Option, List — then by declaration, so neither a renamed local
+#     nor reordered declarations change it); the body becomes a definition of its own with the
+#     leaves `.next state` (end of the body), `.brk state` (`break`), `.err kind`, `.panic`;
+#   * `loop { body }`            →  the same with `iLoop` and the fuel given in the configuration
+#     (running out of fuel is `.panic`: the equality theorem shows it never happens);
+#   * `Instruction { meta_info, instruction_type: X }` → `X` (the model has no meta info here).
+# =============================================================================================
+
+FPRELUDE = {
+    "dropPrefixes": "/-- `str::trim_start_matches(\"p\")` for a non-empty literal `p`: the prefix `p` removed as often as it\n"
+                    "    occurs (at most `l.length` times) -/\n"
+                    "def dropPrefixes (p : Str) : Nat → Str → Str\n  | 0, l => l\n"
+                    "  | n + 1, l => if p.isPrefixOf l then dropPrefixes p n (l.drop p.length) else l\n\n",
+}
+
+def camel(name):
+    parts = name.strip("_").split("_")
+    out = parts[0] + "".join(q.capitalize() for q in parts[1:])
+    if out in ("end", "at", "from", "meta", "open", "then", "do", "fun", "let", "have", "show", "by", "in", "with", "match", "if", "else", "where", "def", "at", "s"):
+        out += "_"
+    return out
+
+def fn_signature(src, name):
+    """(parameters as [(name, type text without blanks)], return type text) of `fn name`"""
+    m = re.search(r"fn %s\s*\(" % re.escape(name), src)
+    if not m: return None
+    close = _match_paren(src, m.end() - 1)
+    params = []
+    depth, cur = 0, ""
+    for ch in src[m.end():close] + ",":
+        if ch in "<([": depth += 1
+        elif ch in ">)]": depth -= 1
+        if ch == "," and depth == 0:
+            if cur.strip():
+                if ":" not in cur: fail("parameter without a type in %s" % name)
+                n, t = cur.split(":", 1)
+                params.append((n.strip(), re.sub(r"\s+", "", t)))
+            cur = ""
+        else:
+            cur += ch
+    brace = src.index("{", close)
+    ret = re.sub(r"\s+", "", src[close + 1:brace])
+    if ret.startswith("->"): ret = ret[2:]
+    return params, ret
+
+def constants(src):
+    """`static NAME: type = literal;` / `const NAME: type = literal;` at the top level"""
+    out = {}
+    for m in re.finditer(r"^(?:pub\s+)?(?:static|const)\s+([A-Z_0-9]+)\s*:\s*([^=]+?)\s*=\s*(.+?);\s*$", src, re.M):
+        toks = tokenize(m.group(3))
+        if len(toks) == 1 and toks[0][0] == "char": out[m.group(1)] = ("char", unescape(toks[0][1][1:-1]))
+        elif len(toks) == 1 and toks[0][0] == "str": out[m.group(1)] = ("lit_str", unescape(toks[0][1][1:-1]))
+        elif len(toks) == 1 and toks[0][0] == "num": out[m.group(1)] = ("num", int(toks[0][1]))
+    return out
+
+# ------------------------------------------------------------------ parser of the fourth executor
+
+def fparse_block(text):
+    p = P(tokenize(text))
+    b = _fblock(p)
+    if p.peek()[0] != "eof": fail("trailing tokens after the block")
+    return b
+
+def _fblock(p):
+    p.take("{")
+    out = []
+    while not p.at("}"):
+        out.append(_fstmt(p))
+    p.take("}")
+    return out
+
+def _fend(p, in_arm=False):
+    if in_arm: return False
+    if p.at(";"):
+        p.take(); return True
+    if p.at("}"): return False
+    fail("expected `;`, found %r" % (p.peek()[1],))
+
+def _fskip_type(p):
+    depth = 0
+    while True:
+        t = p.peek()
+        if t[0] == "eof": fail("unterminated type annotation")
+        if depth == 0 and t[1] in ("=", ";"): return
+        if t[1] in ("<", "(", "["): depth += 1
+        if t[1] in (">", ")", "]"): depth -= 1
+        p.take()
+
+def _fstmt(p, in_arm=False):
+    if p.at("let"):
+        p.take()
+        mut = False
+        if p.at("mut"):
+            p.take(); mut = True
+        if p.at("("):
+            p.take(); names = []
+            while not p.at(")"):
+                t = p.take()
+                if t[0] != "id": fail("unsupported `let` pattern")
+                names.append(t[1])
+                if p.at(","): p.take()
+            p.take(")")
+            pat = ("ptuple", names)
+        else:
+            t = p.take()
+            if t[0] != "id": fail("unsupported `let` pattern")
+            pat = ("pid", t[1])
+        if p.at(":"):
+            p.take(); _fskip_type(p)
+        if not p.at("="): fail("`let` without an initial value")
+        p.take("=")
+        e = _fexpr(p)
+        p.take(";")
+        return ("let", pat, mut, e)
+    if p.at("if"):
+        s = _fif(p)
+        if p.at(";"): p.take()
+        return s
+    if p.at("match"):
+        s = _fmatch(p)
+        if p.at(";"): p.take()
+        return ("match",) + s
+    if p.at("for"):
+        p.take(); x = p.take()
+        if x[0] != "id": fail("unsupported `for` pattern")
+        p.take("in")
+        lo = _fexpr_add(p); p.take(".."); hi = _fexpr_add(p)
+        return ("for", x[1], lo, hi, _fblock(p))
+    if p.at("loop"):
+        p.take()
+        return ("loop", _fblock(p))
+    if p.at("while"):
+        fail("`while` is outside the subset")
+    if p.at("break"):
+        p.take(); _fend(p, in_arm)
+        return ("break",)
+    if p.at("continue"):
+        fail("`continue` is outside the subset")
+    if p.at("return"):
+        p.take(); e = _fexpr(p); _fend(p, in_arm)
+        return ("return", e)
+    e = _fexpr(p)
+    if p.at("=") or p.at("+=") or p.at("-="):
+        op = p.take()[1]
+        if e[0] == "id": target = e[1]
+        elif e[0] == "field" and e[1][0] == "id": target = e[1][1] + "." + e[2]
+        else: fail("assignment to something that is neither a local nor a field of a local")
+        rhs = _fexpr(p)
+        _fend(p, in_arm)
+        return ("assign", target, op, rhs)
+    if in_arm: return ("expr", e)
+    if _fend(p): return ("exprstmt", e)
+    return ("expr", e)
+
+def _fif(p):
+    p.take("if")
+    if p.at("let"):
+        p.take(); pat = _fpat(p); p.take("=")
+        e = _fexpr(p, nostruct=True)
+        then = _fblock(p)
+        els = None
+        if p.at("else"):
+            p.take(); els = [_fif(p)] if p.at("if") else _fblock(p)
+        return ("iflet", pat, e, then, els)
+    cond = _fexpr(p, nostruct=True)
+    then = _fblock(p)
+    els = None
+    if p.at("else"):
+        p.take(); els = [_fif(p)] if p.at("if") else _fblock(p)
+    return ("if", cond, then, els)
+
+def _fmatch(p):
+    p.take("match")
+    scrut = _fexpr(p, nostruct=True)
+    p.take("{")
+    arms = []
+    while not p.at("}"):
+        pat = _fpat(p)
+        p.take("=>")
+        if p.at("{"):
+            body = _fblock(p)
+            if p.at(","): p.take()
+        else:
+            body = [_fstmt(p, in_arm=True)]
+            if p.at(","): p.take()
+            elif not p.at("}"): fail("expected `,` after a match arm")
+        arms.append((pat, body))
+    p.take("}")
+    return (scrut, arms)
+
+def _fpat(p):
+    t = p.take()
+    if t[0] != "id": fail("unsupported pattern %r" % (t[1],))
+    if t[1] == "_": return ("pwild",)
+    if t[1] == "None": return ("pnone",)
+    if t[1] in ("Ok", "Err", "Some") and p.at("("):
+        p.take()
+        if p.at("("):
+            p.take(); names = []
+            while not p.at(")"):
+                x = p.take()
+                if x[0] != "id": fail("unsupported tuple pattern")
+                names.append(x[1])
+                if p.at(","): p.take()
+            p.take(")"); p.take(")")
+            if t[1] != "Ok": fail("tuple pattern inside %s(..)" % t[1])
+            return ("poktuple", names)
+        x = p.take()
+        if x[0] != "id": fail("unsupported pattern inside %s(..)" % t[1])
+        if p.at("mut"): fail("`mut` binding in a pattern")
+        p.take(")")
+        return ({"Ok": "pok", "Err": "perr", "Some": "psome"}[t[1]], x[1])
+    fail("unsupported pattern %r" % (t[1],))
+
+_NOSTRUCT = [False]
+
+def _fexpr(p, nostruct=False):
+    saved = _NOSTRUCT[0]
+    _NOSTRUCT[0] = nostruct
+    try:
+        a = _fexpr_and(p)
+        while p.at("||"):
+            p.take(); a = ("bin", "||", a, _fexpr_and(p))
+        return a
+    finally:
+        _NOSTRUCT[0] = saved
+
+def _fexpr_and(p):
+    a = _fexpr_cmp(p)
+    while p.at("&&"):
+        p.take(); a = ("bin", "&&", a, _fexpr_cmp(p))
+    return a
+
+def _fexpr_cmp(p):
+    a = _fexpr_add(p)
+    if p.peek()[1] in ("==", "!=", "<", ">", "<=", ">="):
+        op = p.take()[1]
+        return ("bin", op, a, _fexpr_add(p))
+    return a
+
+def _fexpr_add(p):
+    a = _fexpr_unary(p)
+    while p.peek()[1] in ("+", "-"):
+        op = p.take()[1]; a = ("bin", op, a, _fexpr_unary(p))
+    return a
+
+def _fexpr_unary(p):
+    if p.at("!"):
+        p.take(); return ("not", _fexpr_unary(p))
+    if p.at("&"):
+        p.take()
+        if p.at("mut"):
+            p.take(); return ("refmut", _fexpr_unary(p))
+        return _fexpr_unary(p)
+    if p.at("*"):
+        p.take(); return _fexpr_unary(p)
+    return _fexpr_postfix(p)
+
+def _fargs(p, open_="(", close=")"):
+    p.take(open_)
+    saved = _NOSTRUCT[0]; _NOSTRUCT[0] = False
+    args = []
+    while not p.at(close):
+        args.append(_fexpr(p))
+        if p.at(","): p.take()
+        elif not p.at(close): fail("expected `,` or `%s` in an argument list" % close)
+    p.take(close)
+    _NOSTRUCT[0] = saved
+    return args
+
+def _fexpr_postfix(p):
+    e = _fexpr_primary(p)
+    while True:
+        if p.at("."):
+            p.take(); m = p.take()
+            if m[0] == "num":
+                e = ("proj", e, int(m[1]))
+            elif m[0] != "id": fail("unsupported field access")
+            elif p.at("("):
+                e = ("method", e, m[1], _fargs(p))
+            else:
+                e = ("field", e, m[1])
+        elif p.at("["):
+            p.take()
+            saved = _NOSTRUCT[0]; _NOSTRUCT[0] = False
+            i = _fexpr(p)
+            _NOSTRUCT[0] = saved
+            if p.at(".."): fail("slicing is outside the subset")
+            p.take("]")
+            e = ("index", e, i)
+        elif p.at("?"):
+            p.take()
+            e = ("try", e)
+        else:
+            return e
+
+def _fexpr_primary(p):
+    tok = p.take()
+    if tok[0] == "str": return ("lit_str", unescape(tok[1][1:-1]))
+    if tok[0] == "char": return ("char", unescape(tok[1][1:-1]))
+    if tok[0] == "num": return ("num", int(tok[1]))
+    if tok[1] == "(":
+        saved = _NOSTRUCT[0]; _NOSTRUCT[0] = False
+        e = _fexpr(p)
+        if p.at(","):
+            items = [e]
+            while p.at(","):
+                p.take()
+                if p.at(")"): break
+                items.append(_fexpr(p))
+            e = ("tuple", items)
+        p.take(")")
+        _NOSTRUCT[0] = saved
+        return e
+    if tok[1] == "if":
+        p.i -= 1
+        s = _fif(p)
+        return ("ifexpr", s)
+    if tok[1] == "match":
+        p.i -= 1
+        return ("matchexpr",) + _fmatch(p)
+    if tok[0] != "id": fail("unsupported expression starting with %r" % (tok[1],))
+    name = tok[1]
+    if name in ("true", "false"): return ("bool", name == "true")
+    if name == "None": return ("none",)
+    if name in ("Some", "Ok", "Err") and p.at("("):
+        args = _fargs(p)
+        if len(args) != 1: fail("%s(..) takes one argument" % name)
+        return ({"Some": "some", "Ok": "ok", "Err": "errc"}[name], args[0])
+    if p.at("::"):
+        p.take(); v = p.take()[1]
+        if p.at("("): return ("pathcall", name, v, _fargs(p))
+        return ("path", name, v)
+    if p.at("!") and p.peek(1)[1] in ("(", "["):
+        p.take()
+        return ("macro", name, _fargs(p) if p.at("(") else _fargs(p, "[", "]"))
+    if p.at("("):
+        return ("call", name, _fargs(p))
+    if p.at("{") and not _NOSTRUCT[0] and name[0].isupper():
+        p.take(); fields = []
+        while not p.at("}"):
+            f = p.take()
+            if f[0] != "id": fail("unsupported struct literal")
+            if p.at(":"):
+                p.take(); fields.append((f[1], _fexpr(p)))
+            else:
+                fields.append((f[1], ("id", f[1])))
+            if p.at(","): p.take()
+            elif not p.at("}"): fail("expected `,` in a struct literal")
+        p.take("}")
+        return ("struct", name, fields)
+    return ("id", name)
+
+# ------------------------------------------------------------------ values of the fourth executor
+#
+#   ("nat", base | None, off)          ("cond", tree)          ("char", lean text)
+#   ("str", [("lit", s) | ("e", lean text)])                  ("opt", elem type | None, state)
+#        state = ("none",) | ("some", value) | ("opaque", lean text)
+#   ("list", elem type, lean text)     ("tuple", [values])     ("struct", rust name, {field: value})
+#   ("callres", lean text, callee)     ("err", lean text)      ("ity", lean text)  (InstructionType)
+#   ("res_ok", value) / ("res_err", value)                     ("dropped",)  (meta info)
+# cond trees:  T | F | ("b", Bool text) | ("p", Prop text) | ("not", c) | ("and", a, b) | ("or", a, b)
+
+RANK = {"Nat": 0, "Bool": 1, "Char": 2, "Str": 3}
+
+def ftype(v):
+    k = v[0]
+    if k == "nat": return "Nat"
+    if k == "cond": return "Bool"
+    if k == "char": return "Char"
+    if k == "str": return "Str"
+    if k == "opt":
+        t = v[1]
+        if t is None and v[2][0] == "some": t = ftype(v[2][1])
+        return None if t is None else "Option %s" % _par(t)
+    if k == "list": return None if v[1] is None else "List %s" % _par(v[1])
+    if k == "ity": return "InstrType"
+    if k == "tuple":
+        ts = [ftype(x) for x in v[1]]
+        return None if None in ts else " × ".join(_par(t) if "×" in t else t for t in ts)
+    fail("a value of kind %s has no Lean type here" % k)
+
+def frank(t):
+    if t in RANK: return RANK[t]
+    if t is None or t.startswith("Option"): return 4
+    return 5
+
+def fnat(v):
+    base, off = v[1], v[2]
+    if base is None: return str(off)
+    if off == 0: return base
+    if off > 0: return "%s + %d" % (base, off)
+    fail("negative offset")
+
+def fstr(v):
+    parts = []
+    for kind, x in v[1]:
+        if kind == "lit" and parts and parts[-1][0] == "lit": parts[-1] = ("lit", parts[-1][1] + x)
+        elif kind == "lit" and x == "": continue
+        else: parts.append((kind, x))
+    if not parts: return "[]"
+    out = []
+    for kind, x in parts:
+        out.append("[%s]" % ", ".join(lean_char(c) for c in x) if kind == "lit" else x)
+    return " ++ ".join(_fpar(x) if len(out) > 1 else x for x in out)
+
+def _fpar(s):
+    if re.match(r"^[\w.'!]+$", s) and not s.startswith("!"): return s
+    if s[0] == "[" and s.endswith("]") and s.count("[") == 1: return s
+    if s[0] == "(" and _match_paren(s, 0) == len(s) - 1: return s
+    if s[0] == "{" and s.endswith("}"): return s
+    return "(%s)" % s
+
+def fcond_bool(c):
+    """a condition as a Lean `Bool` term"""
+    if c == T: return "true"
+    if c == F: return "false"
+    k = c[0]
+    if k == "b": return c[1]
+    if k == "p": return "decide (%s)" % c[1]
+    if k == "not": return "!%s" % _fpar(fcond_bool(c[1]))
+    return "(%s %s %s)" % (fcond_bool(c[1]), "&&" if k == "and" else "||", fcond_bool(c[2]))
+
+def fcond_prop(c):
+    """a condition as the condition of a Lean `if`"""
+    k = c[0]
+    if c == T: return "True"
+    if c == F: return "False"
+    if k == "b": return c[1]
+    if k == "p": return c[1]
+    if k == "not":
+        a = c[1]
+        if a[0] == "b": return "%s = false" % a[1] if re.match(r"^[\w.']+$", a[1]) else "(%s) = false" % a[1]
+        if a[0] == "p" and a[2:] and a[2][0] in ("=",):
+            return "%s ≠ %s" % (a[2][1], a[2][2])
+        return "¬ (%s)" % fcond_prop(a)
+    a, b = fcond_prop(c[1]), fcond_prop(c[2])
+    if c[1][0] in ("and", "or") and c[1][0] != k: a = "(%s)" % a
+    if c[2][0] in ("and", "or") and c[2][0] != k: b = "(%s)" % b
+    return a + (" ∧ " if k == "and" else " ∨ ") + b
+
+def fval(v):
+    """a value as a Lean term"""
+    k = v[0]
+    if k == "nat": return fnat(v)
+    if k == "cond": return fcond_bool(v[1])
+    if k == "char": return v[1]
+    if k == "str": return fstr(v)
+    if k == "opt":
+        st = v[2]
+        if st[0] == "none": return "none"
+        if st[0] == "some": return "some %s" % _fpar(fval(st[1]))
+        return st[1]
+    if k == "list": return v[2]
+    if k == "tuple": return "(%s)" % ", ".join(fval(x) for x in v[1])
+    if k in ("err", "ity"): return v[1]
+    fail("a value of kind %s cannot be rendered" % k)
+
+class FConfig:
+    def __init__(self, consts, errors, structs, variants, callees, types, loop_fuel, wrappers):
+        """consts: Rust constant -> AST literal; errors: ScriptError variant -> Lean PErr constructor;
+        structs: Rust struct -> {"fields": [(rust field, lean field, lean type)], "lean": type name};
+        variants: (Enum, Variant) -> function from argument values to a value;
+        callees: Rust fn -> dict(lean, params [(name, type)], ret, flags) — how a call is rendered;
+        types: Rust type text -> Lean type (None = dropped); loop_fuel: Rust fn -> Lean fuel text
+        for its `loop`; wrappers: Rust struct names whose literal is rendered as one of its fields"""
+        self.consts, self.errors, self.structs, self.variants = consts, errors, structs, variants
+        self.callees, self.types, self.loop_fuel, self.wrappers = callees, types, loop_fuel, wrappers
+        self.prelude_used = set()      # names of FPRELUDE definitions the translated text uses
+
+class FEnv:
+    def __init__(self, vals=None, order=None):
+        self.vals, self.order = dict(vals or {}), list(order or [])
+    def copy(self):
+        return FEnv(self.vals, self.order)
+    def declare(self, name, v):
+        if name in self.order: self.order.remove(name)
+        self.order.append(name)
+        self.vals[name] = v
+    def set(self, name, v):
+        if name not in self.vals: fail("assignment to the undeclared %s" % name)
+        self.vals[name] = v
+
+class FCtx:
+    def __init__(self, cfg, fn_name, mode, names, leanvars, aux, mutparam=None, state=None, svar=None):
+        self.cfg, self.fn_name, self.mode, self.names, self.leanvars, self.aux = cfg, fn_name, mode, names, leanvars, aux
+        self.mutparam, self.state, self.svar = mutparam, state, svar
+        self.leaf_types = []
+    def fresh(self, rust_name, ty):
+        base = camel(rust_name) or "x"
+        name, k = base, 1
+        while name in self.names:
+            k += 1; name = "%s%d" % (base, k)
+        self.names.add(name)
+        self.leanvars.append((name, ty))
+        return name
+    def sub(self, mode, state, svar):
+        c = FCtx(self.cfg, self.fn_name, mode, self.names, self.leanvars, self.aux, self.mutparam, state, svar)
+        return c
+
+def fopaque(ty, text):
+    """the symbolic value of a Lean variable / expression of the given Lean type"""
+    if ty == "Nat": return ("nat", text, 0)
+    if ty == "Bool": return ("cond", ("b", text))
+    if ty == "Char": return ("char", text)
+    if ty == "Str": return ("str", [("e", text)])
+    if ty is not None and ty.startswith("Option "):
+        inner = ty[len("Option "):]
+        if inner.startswith("(") and inner.endswith(")"): inner = inner[1:-1]
+        return ("opt", inner, ("opaque", text))
+    if ty is not None and ty.startswith("List "):
+        inner = ty[len("List "):]
+        if inner.startswith("(") and inner.endswith(")"): inner = inner[1:-1]
+        return ("list", inner, text)
+    if ty == "InstrType": return ("ity", text)
+    fail("no symbolic value for the Lean type %s" % ty)
+
+def fstruct_opaque(cfg, sname, text):
+    return ("struct", sname, {rf: fopaque(lt, "%s.%s" % (text, lf)) for rf, lf, lt in cfg.structs[sname]["fields"]})
+
+def fstruct_render(cfg, v):
+    info = cfg.structs[v[1]]
+    return "{ %s }" % ", ".join("%s := %s" % (lf, fval(v[2][rf])) for rf, lf, lt in info["fields"])
+
+class _Guard(Exception):
+    """an expression needs a check before it has a value: ("rd", xs, i) | ("decr", i) | ("unwrap", opt text, lvalue)"""
+    def __init__(self, what): self.what = what
+
+def flvalue(e):
+    if e[0] == "id": return e[1]
+    if e[0] == "field" and e[1][0] == "id": return e[1][1] + "." + e[2]
+    return None
+
+def fget(name, env, ctx):
+    if name in env.vals: return env.vals[name]
+    if "." in name:
+        base, f = name.split(".", 1)
+        if base in env.vals and env.vals[base][0] == "struct" and f in env.vals[base][2]:
+            return env.vals[base][2][f]
+    if name in ctx.cfg.consts: return feval(ctx.cfg.consts[name], env, ctx)
+    fail("unknown variable %s" % name)
+
+def fput(name, v, env):
+    if "." in name:
+        base, f = name.split(".", 1)
+        if base not in env.vals or env.vals[base][0] != "struct" or f not in env.vals[base][2]:
+            fail("assignment to the unknown field %s" % name)
+        fields = dict(env.vals[base][2]); fields[f] = v
+        env.vals[base] = ("struct", env.vals[base][1], fields)
+    else:
+        env.set(name, v)
+
+def fcmp(op, a, b):
+    lop = {"==": "=", "!=": "≠", "<": "<", ">": ">", "<=": "≤", ">=": "≥"}[op]
+    if a[0] == "nat" and b[0] == "nat":
+        if a[1] is None and b[1] is None:
+            return T if {"==": a[2] == b[2], "!=": a[2] != b[2], "<": a[2] < b[2], ">": a[2] > b[2], "<=": a[2] <= b[2], ">=": a[2] >= b[2]}[op] else F
+        x, y = fnat(a), fnat(b)
+    elif a[0] == "char" and b[0] == "char":
+        if op not in ("==", "!="): fail("ordering of characters")
+        x, y = a[1], b[1]
+    elif a[0] == "str" and b[0] == "str":
+        if op not in ("==", "!="): fail("ordering of strings")
+        x, y = fstr(a), fstr(b)
+    else:
+        fail("unsupported comparison")
+    if op == "!=": return ("not", ("p", "%s = %s" % (x, y), ("=", x, y)))
+    return ("p", "%s %s %s" % (x, lop, y), (lop, x, y))
+
+def feval(e, env, ctx, strict=True):
+    cfg = ctx.cfg
+    k = e[0]
+    if k == "bool": return ("cond", T if e[1] else F)
+    if k == "num": return ("nat", None, e[1])
+    if k == "char": return ("char", lean_char(e[1]))
+    if k == "lit_str": return ("str", [("lit", e[1])])
+    if k == "none": return ("opt", None, ("none",))
+    if k == "some":
+        v = feval(e[1], env, ctx, strict)
+        return ("opt", ftype(v), ("some", v))
+    if k == "ok": return ("res_ok", feval(e[1], env, ctx, strict))
+    if k == "errc": return ("res_err", feval(e[1], env, ctx, strict))
+    if k == "tuple": return ("tuple", [feval(x, env, ctx, strict) for x in e[1]])
+    if k == "id": return fget(e[1], env, ctx)
+    if k == "refmut":
+        fail("`&mut` outside a call argument")
+    if k == "field":
+        name = flvalue(e)
+        if name is None: fail("unsupported field access")
+        return fget(name, env, ctx)
+    if k == "proj":
+        v = feval(e[1], env, ctx, strict)
+        if v[0] != "tuple" or e[2] >= len(v[1]): fail("unsupported projection")
+        return v[1][e[2]]
+    if k == "not":
+        v = feval(e[1], env, ctx, strict)
+        if v[0] != "cond": fail("`!` of a non-boolean")
+        return ("cond", _cnot(v[1]))
+    if k == "index":
+        if not strict: fail("indexing in a short-circuited operand")
+        xs, i = feval(e[1], env, ctx), feval(e[2], env, ctx)
+        if xs[0] != "str" or i[0] != "nat": fail("unsupported indexing")
+        raise _Guard(("rd", fstr(xs), fnat(i), e))
+    if k == "bin":
+        op = e[1]
+        if op in ("&&", "||"):
+            a, b = feval(e[2], env, ctx, strict), feval(e[3], env, ctx, False)
+            if a[0] != "cond" or b[0] != "cond": fail("`%s` of non-booleans" % op)
+            return ("cond", _cand(a[1], b[1]) if op == "&&" else _cor(a[1], b[1]))
+        a, b = feval(e[2], env, ctx, strict), feval(e[3], env, ctx, strict)
+        if op in ("+", "-"):
+            if a[0] != "nat" or b[0] != "nat" or b[1] is not None: fail("unsupported arithmetic")
+            if op == "+": return ("nat", a[1], a[2] + b[2])
+            if a[2] >= b[2]: return ("nat", a[1], a[2] - b[2])
+            if not strict: fail("a subtraction that can underflow in a short-circuited operand")
+            if a[1] is None: raise _Guard(("panic",))
+            if b[2] - a[2] != 1: fail("subtraction of more than one from an index")
+            raise _Guard(("decr", a[1], e))
+        return ("cond", fcmp(op, a, b))
+    if k == "macro":
+        if e[1] == "vec" and not e[2]: return ("list", None, "[]")
+        fail("unsupported macro %s!" % e[1])
+    if k == "path":
+        if (e[1], e[2]) in cfg.variants: return cfg.variants[(e[1], e[2])]([])
+        fail("unknown constant %s::%s" % (e[1], e[2]))
+    if k == "pathcall":
+        if e[2] == "new" and not e[3]:
+            if e[1] == "String": return ("str", [])
+            if e[1] == "Vec": return ("list", None, "[]")
+            if e[1] in cfg.structs:
+                return ("struct", e[1], {rf: fdefault(lt) for rf, lf, lt in cfg.structs[e[1]]["fields"]})
+            fail("unknown constructor %s::new()" % e[1])
+        if e[1] == "ScriptError":
+            if e[2] not in cfg.errors: fail("unknown error kind %s" % e[2])
+            return ("err", ".%s" % cfg.errors[e[2]])
+        if (e[1], e[2]) in cfg.variants:
+            return cfg.variants[(e[1], e[2])]([feval(a, env, ctx, strict) for a in e[3]])
+        fail("unsupported call %s::%s" % (e[1], e[2]))
+    if k == "struct":
+        if e[1] in cfg.wrappers:
+            for f, x in e[2]:
+                if f == cfg.wrappers[e[1]]: return feval(x, env, ctx, strict)
+            fail("struct literal %s without the field %s" % (e[1], cfg.wrappers[e[1]]))
+        fail("unsupported struct literal %s" % e[1])
+    if k == "call":
+        return fcall(e, env, ctx, strict)
+    if k == "method":
+        return fmethod(e, env, ctx, strict)
+    if k in ("ifexpr", "matchexpr"):
+        fail("`if` / `match` as a sub-expression")
+    fail("unsupported expression %r" % (k,))
+
+def fdefault(lt):
+    if lt.startswith("Option"): return fopaque_known_none(lt)
+    fail("no default for %s" % lt)
+
+def fopaque_known_none(lt):
+    v = fopaque(lt, "none")
+    return ("opt", v[1], ("none",))
+
+def fcall(e, env, ctx, strict):
+    cfg = ctx.cfg
+    name, args = e[1], e[2]
+    if name not in cfg.callees: fail("call of the unknown function %s" % name)
+    cal = cfg.callees[name]
+    if len(args) != len(cal["params"]): fail("wrong number of arguments in a call of %s" % name)
+    vals, mutarg = {}, None
+    for (pn, pt), a in zip(cal["params"], args):
+        if pt not in cfg.types: fail("parameter type %s of %s" % (pt, name))
+        lt = cfg.types[pt]
+        if lt is None: continue                     # meta info: dropped
+        if pt.startswith("&mut"):
+            if a[0] != "refmut" or a[1][0] != "id": fail("a `&mut` parameter needs `&mut <local>`, or the `&mut` parameter itself")
+            mutarg = a[1][1]
+            v = fget(mutarg, env, ctx)
+            if v[0] != "struct": fail("`&mut` of a non-struct")
+            vals[pn] = fstruct_render(cfg, v)
+            continue
+        if a[0] == "id" and ctx.mutparam == a[1]:
+            fail("the `&mut` parameter passed on by value")
+        v = feval(a, env, ctx, strict)
+        if ftype(v) != lt: fail("argument %s of %s has the type %s, not %s" % (pn, name, ftype(v), lt))
+        vals[pn] = fval(v)
+    text = cal["render"](vals)
+    return ("callres", text, name, mutarg)
+
+def fmethod(e, env, ctx, strict):
+    recv, m, args = e[1], e[2], e[3]
+    if m in ("clone", "to_string", "to_owned", "as_str", "as_slice", "to_vec") and not args:
+        return feval(recv, env, ctx, strict)
+    if m == "collect" and not args and recv[0] == "method" and recv[2] == "chars" and not recv[3]:
+        v = feval(recv[1], env, ctx, strict)           # `s.chars().collect()`: a string IS its characters
+        if v[0] != "str": fail(".chars() of a non-string")
+        return v
+    r = feval(recv, env, ctx, strict)
+    if r[0] == "opt":
+        st = r[2]
+        if m in ("is_none", "is_some") and not args:
+            c = T if st[0] == "none" else F if st[0] == "some" else ("b", "%s.isNone" % _fpar(st[1]))
+            return ("cond", c if m == "is_none" else _cnot(c))
+        if m == "unwrap" and not args:
+            if st[0] == "some": return st[1]
+            if not strict: fail("unwrap() in a short-circuited operand")
+            if st[0] == "none": raise _Guard(("panic",))
+            raise _Guard(("unwrap", r, flvalue(recv), e))
+        fail("unsupported method .%s of an Option" % m)
+    if r[0] == "str":
+        if m == "len" and not args:
+            ps = [q for q in r[1] if not (q[0] == "lit" and q[1] == "")]
+            if all(q[0] == "lit" for q in ps): return ("nat", None, sum(len(q[1]) for q in ps))
+            return ("nat", "%s.length" % _fpar(fstr(r)), 0)
+        if m == "is_empty" and not args:
+            ps = [q for q in r[1] if not (q[0] == "lit" and q[1] == "")]
+            if not ps: return ("cond", T)
+            if any(q[0] == "lit" for q in ps): return ("cond", F)
+            return ("cond", ("b", "%s.isEmpty" % _fpar(fstr(r))))
+        if m in ("trim", "trim_start", "trim_end") and not args:
+            return ("str", [("e", "%s %s" % ({"trim": "trim", "trim_start": "trimStart", "trim_end": "trimEnd"}[m], _fpar(fstr(r))))])
+        if m in ("trim_start_matches", "starts_with") and len(args) == 1:
+            a = feval(args[0], env, ctx, strict)
+            if m == "starts_with":
+                pre = "[%s]" % a[1] if a[0] == "char" else fstr(a) if a[0] == "str" else fail("starts_with of an unsupported pattern")
+                return ("cond", ("b", "%s.isPrefixOf %s" % (_fpar(pre), _fpar(fstr(r)))))
+            if a[0] == "char":
+                return ("str", [("e", "%s.dropWhile (fun c => c == %s)" % (_fpar(fstr(r)), a[1]))])
+            if a[0] == "str" and a[1] and all(q[0] == "lit" for q in a[1]) and fstr(a) != "[]":
+                ctx.cfg.prelude_used.add("dropPrefixes")
+                return ("str", [("e", "dropPrefixes %s %s.length %s" % (_fpar(fstr(a)), _fpar(fstr(r)), _fpar(fstr(r))))])
+            fail("trim_start_matches of an unsupported pattern")
+        if m == "trim_end_matches" and len(args) == 1:
+            a = feval(args[0], env, ctx, strict)
+            if a[0] == "char":
+                return ("str", [("e", "(%s.reverse.dropWhile (fun c => c == %s)).reverse" % (_fpar(fstr(r)), a[1]))])
+            fail("trim_end_matches of an unsupported pattern")
+        fail("unsupported method .%s of a string" % m)
+    if r[0] == "list":
+        if m == "is_empty" and not args:
+            if r[2] == "[]": return ("cond", T)
+            return ("cond", ("b", "%s.isEmpty" % _fpar(r[2])))
+        if m == "len" and not args: return ("nat", "%s.length" % _fpar(r[2]), 0)
+        fail("unsupported method .%s of a vector" % m)
+    fail("unsupported method .%s" % m)
+
+# ------------------------------------------------------------------ execution of the fourth executor
+
+def fassigned(stmts, out):
+    """targets assigned (or pushed into) anywhere in the statements, in order of appearance"""
+    def add(n):
+        if n not in out: out.append(n)
+    def expr(e):
+        if isinstance(e, tuple):
+            if e and e[0] == "call":
+                for a in e[2]:
+                    if a[0] == "refmut" and a[1][0] == "id": add(a[1][1] + ".*")
+            if e and e[0] in ("ifexpr",): stmt(e[1])
+            if e and e[0] == "matchexpr":
+                for _, b in e[2]: fassigned(b, out)
+            for x in e: expr(x)
+        elif isinstance(e, list):
+            for x in e: expr(x)
+    def stmt(s):
+        k = s[0]
+        if k == "assign": add(s[1]); expr(s[3])
+        elif k == "let": expr(s[3])
+        elif k == "if": expr(s[1]); fassigned(s[2], out); fassigned(s[3] or [], out)
+        elif k == "iflet": expr(s[2]); fassigned(s[3], out); fassigned(s[4] or [], out)
+        elif k == "match":
+            expr(s[1])
+            for _, b in s[2]: fassigned(b, out)
+        elif k in ("for",): fassigned(s[4], out)
+        elif k == "loop": fassigned(s[1], out)
+        elif k in ("exprstmt", "expr", "return"):
+            e = s[1]
+            if k == "exprstmt" and e[0] == "method" and e[2] in ("push", "push_str", "clear", "append", "insert", "pop", "remove", "reverse", "truncate"):
+                n = flvalue(e[1])
+                if n: add(n)
+            expr(e)
+    for s in stmts: stmt(s)
+    return out
+
+def ftranslate_fn(src, name, cfg, lean_name, aux_prefix):
+    """returns the Lean text of the definitions translated from `fn name` (loop bodies first)"""
+    sig = fn_signature(src, name)
+    body = fn_body(src, name)
+    if sig is None or body is None: fail("%s not found" % name)
+    params, ret = sig
+    if ret not in cfg.types or cfg.types[ret] is None: fail("return type %s of %s" % (ret, name))
+    stmts = fparse_block(body)
+    names, leanvars, aux = set(["s"]), [], []
+    ctx = FCtx(cfg, name, "fn", names, leanvars, aux)
+    ctx.aux_prefix = aux_prefix
+    env = FEnv()
+    lparams = []
+    for pn, pt in params:
+        if pt not in cfg.types: fail("parameter type %s of %s" % (pt, name))
+        lt = cfg.types[pt]
+        if lt is None:
+            env.declare(pn, ("dropped",)); continue
+        if pt.startswith("&mut"):
+            if ctx.mutparam is not None: fail("two `&mut` parameters")
+            sname = pt[len("&mut"):]
+            ln = ctx.fresh(pn, lt)
+            ctx.mutparam = pn
+            env.declare(pn, fstruct_opaque(cfg, sname, ln))
+        else:
+            ln = ctx.fresh(pn, lt)
+            env.declare(pn, fopaque(lt, ln))
+        lparams.append("(%s : %s)" % (ln, lt))
+    ctx.ret = cfg.types[ret]
+    tree = fexec(stmts, env, ctx)
+    rt = ctx.ret
+    if ctx.mutparam is not None:
+        rt = "%s × %s" % (_par(rt) if "×" in rt else rt, cfg.structs[[pt for pn, pt in params if pn == ctx.mutparam][0][len("&mut"):]]["lean"])
+    text = "".join(aux)
+    text += "/-- `%s` -/\n" % name
+    text += "def %s %s : IOut %s :=\n%s\n" % (lean_name, " ".join(lparams), _par(rt), frender(tree, 1))
+    return text
+
+def fexec(stmts, env, ctx):
+    if not stmts:
+        if ctx.mode == "loop": return ("leaf", ".next %s" % fstate(env, ctx))
+        fail("control reaches the end of %s without a result" % ctx.fn_name)
+    s, rest = stmts[0], stmts[1:]
+    env = env.copy()
+    try:
+        return fexec1(s, rest, env, ctx)
+    except _Guard as g:
+        w = g.what
+        if w[0] == "panic":
+            return ("leaf", ".panic")
+        if w[0] == "rd":
+            var = ctx.fresh(_hint(s, w[3]) or "c", "Char")
+            return ("matchrd", w[1], w[2], var, fexec([_subst(s, w[3], ("leanvar", var, "Char"))] + rest, env, ctx))
+        if w[0] == "decr":
+            var = ctx.fresh("i", "Nat")
+            return ("matchdecr", w[1], var, fexec([_subst(s, w[2], ("leanvar", var, "Nat"))] + rest, env, ctx))
+        if w[0] == "unwrap":
+            r, lv, ex = w[1], w[2], w[3]
+            var = ctx.fresh("v", r[1])
+            known = ("opt", r[1], ("some", fopaque(r[1], var)))
+            e2 = env.copy()
+            if lv is not None: fput_any(lv, known, e2)
+            return ("matchopt", r[2][1], var, fexec([_subst(s, ex, ("leanvar", var, r[1]))] + rest, e2, ctx), ("leaf", ".panic"))
+        raise
+
+def fput_any(name, v, env):
+    if name in env.vals or "." in name: fput(name, v, env)
+
+def _hint(s, ex):
+    """the Rust name the checked value is bound to, if the statement is `let x = <ex>;`"""
+    if s[0] == "let" and s[1][0] == "pid" and s[3] is ex: return s[1][1]
+    return None
+
+def _subst(node, target, repl):
+    """the AST with the sub-expression `target` (by identity) replaced"""
+    if node is target: return repl
+    if isinstance(node, tuple): return tuple(_subst(x, target, repl) for x in node)
+    if isinstance(node, list): return [_subst(x, target, repl) for x in node]
+    return node
+
+_feval0 = feval
+def feval(e, env, ctx, strict=True):
+    if e[0] == "leanvar": return fopaque(e[2], e[1])
+    return _feval0(e, env, ctx, strict)
+
+def fstate(env, ctx):
+    vals = [fget(n, env, ctx) for n in ctx.state]
+    ctx.leaf_types.append([ftype(v) for v in vals])
+    return ftuple([fval(v) for v in vals])
+
+def ftuple(items):
+    return items[0] if len(items) == 1 else "(%s)" % ", ".join(items)
+
+def fproj(var, k, n):
+    if n == 1: return var
+    if k < n - 1: return "%s%s.1" % (var, ".2" * k)
+    return "%s%s" % (var, ".2" * k)
+
+def fresult(e, env, ctx):
+    """the value of the function: Ok(..) / Err(..) / a call passed on"""
+    if ctx.mode == "loop":
+        v = feval(e, env, ctx)
+        if v[0] == "res_err" and v[1][0] == "err": return ("leaf", ".err %s" % v[1][1])
+        fail("a loop body can only leave the function with `return Err(..)`")
+    if e[0] in ("ifexpr",): return fexec([e[1]], env, ctx)
+    if e[0] == "matchexpr": return fexec([("match", e[1], e[2])], env, ctx)
+    v = feval(e, env, ctx)
+    if v[0] == "res_err":
+        if v[1][0] != "err": fail("Err(..) of something that is not an error")
+        return ("leaf", ".err %s" % v[1][1])
+    if v[0] == "res_ok":
+        return ("leaf", ".ok %s" % _fpar(fwith_mut(v[1], env, ctx)))
+    if v[0] == "callres":
+        cal = ctx.cfg.callees[v[2]]
+        if cal["ret"] != ctx.ret or v[3] is not None or ctx.mutparam is not None:
+            fail("the result of %s passed on with a different type" % v[2])
+        return ("leaf", v[1])
+    fail("unsupported result expression")
+
+def fwith_mut(v, env, ctx):
+    if ftype(v) is None: v = fcoerce(v, ctx.ret)
+    if ftype(v) != ctx.ret: fail("the result has the type %s, not %s" % (ftype(v), ctx.ret))
+    if ctx.mutparam is None: return fval(v)
+    return "(%s, %s)" % (fval(v), fstruct_render(ctx.cfg, fget(ctx.mutparam, env, ctx)))
+
+def fcoerce(v, ty):
+    """gives `None` / `vec![]` / tuples containing them the expected type"""
+    if v[0] == "opt" and v[1] is None and ty.startswith("Option "): return ("opt", fopaque(ty, "x")[1], v[2])
+    if v[0] == "list" and v[1] is None and ty.startswith("List "): return ("list", fopaque(ty, "x")[1], v[2])
+    if v[0] == "tuple":
+        parts = _split_prod(ty)
+        if len(parts) == len(v[1]): return ("tuple", [fcoerce(x, t) if ftype(x) is None else x for x, t in zip(v[1], parts)])
+    return v
+
+def _split_prod(ty):
+    out, depth, cur = [], 0, ""
+    for ch in ty:
+        if ch == "(": depth += 1
+        if ch == ")": depth -= 1
+        if ch == "×" and depth == 0:
+            out.append(cur.strip()); cur = ""
+        else: cur += ch
+    out.append(cur.strip())
+    return [t[1:-1] if t.startswith("(") and t.endswith(")") and "×" in t else t for t in out]
+
+def fsplit_opt(target_expr, env, ctx):
+    """(opaque option value, lvalue) if the expression is an lvalue holding an opaque option"""
+    lv = flvalue(_strip_clone(target_expr))
+    if lv is None: return None
+    try:
+        v = fget(lv, env, ctx)
+    except SystemExit:
+        return None
+    if v[0] == "opt" and v[2][0] == "opaque": return v, lv
+    return None
+
+def _strip_clone(e):
+    while e[0] == "method" and e[2] in ("clone", "as_ref", "to_owned") and not e[3]: e = e[1]
+    return e
+
+def fexec1(s, rest, env, ctx):
+    cfg = ctx.cfg
+    k = s[0]
+    if k == "let":
+        pat, e = s[1], s[3]
+        if e[0] == "ifexpr":
+            i = e[1]
+            def tail(block):
+                if block is None: fail("`if` expression without `else`")
+                if len(block) == 1 and block[0][0] in ("if", "iflet"): return [_lift_if(block[0], tail)]
+                if not block or block[-1][0] != "expr": fail("`if` expression without a value")
+                return list(block[:-1]) + [("let", pat, s[2], block[-1][1])]
+            return fexec([_lift_if(i, tail)] + rest, env, ctx)
+        if e[0] == "matchexpr":
+            arms = [(p_, _arm_tail(b, lambda x: ("let", pat, s[2], x))) for p_, b in e[2]]
+            return fexec([("match", e[1], arms)] + rest, env, ctx)
+        if e[0] == "try":
+            # let x = f(..)?;   ==>   match f(..) { Ok(t) => { let x = t; .. }, Err(e) => return Err(e) }
+            arms = [(("pok", "tried"), [("let", pat, s[2], ("id", "tried"))]), (("perr", "error"), [("return", ("errc", ("id", "error")))])]
+            return fexec([("match", e[1], arms)] + rest, env, ctx)
+        v = feval(e, env, ctx)
+        if pat[0] == "ptuple":
+            if v[0] != "tuple" or len(v[1]) != len(pat[1]): fail("`let (..) =` of something that is not a tuple of that size")
+            for n, x in zip(pat[1], v[1]): env.declare(n, x)
+        else:
+            if v[0] in ("callres", "res_ok", "res_err"): fail("a `Result` kept in a local")
+            env.declare(pat[1], v)
+        return fexec(rest, env, ctx)
+    if k == "assign":
+        name, op, rhs = s[1], s[2], s[3]
+        if op == "=" and rhs[0] == "matchexpr":
+            arms = [(p_, _arm_tail(b, lambda x: ("assign", name, "=", x))) for p_, b in rhs[2]]
+            return fexec([("match", rhs[1], arms)] + rest, env, ctx)
+        if op == "=" and rhs[0] == "try":
+            arms = [(("pok", "tried"), [("assign", name, "=", ("id", "tried"))]), (("perr", "error"), [("return", ("errc", ("id", "error")))])]
+            return fexec([("match", rhs[1], arms)] + rest, env, ctx)
+        if op == "=" and rhs[0] == "ifexpr":
+            def tail(block):
+                if block is None: fail("`if` expression without `else`")
+                if len(block) == 1 and block[0][0] in ("if", "iflet"): return [_lift_if(block[0], tail)]
+                if not block or block[-1][0] != "expr": fail("`if` expression without a value")
+                return list(block[:-1]) + [("assign", name, "=", block[-1][1])]
+            return fexec([_lift_if(rhs[1], tail)] + rest, env, ctx)
+        if op != "=":
+            return fexec([("assign", name, "=", ("bin", op[0], _lv_expr(name), rhs))] + rest, env, ctx)
+        v = feval(rhs, env, ctx)
+        old = fget(name, env, ctx)
+        if v[0] in ("callres", "res_ok", "res_err", "struct", "dropped"): fail("unsupported assignment to %s" % name)
+        to, tn = ftype(old), ftype(v)
+        if to is not None and tn is None: v = fcoerce(v, to); tn = ftype(v)
+        if to is not None and tn is not None and to != tn: fail("ill-typed assignment to %s (%s := %s)" % (name, to, tn))
+        fput(name, v, env)
+        return fexec(rest, env, ctx)
+    if k == "exprstmt":
+        e = s[1]
+        if e[0] == "method" and e[2] in ("push", "push_str") and len(e[3]) == 1:
+            name = flvalue(e[1])
+            if name is None: fail("push into something that is not a local")
+            old = fget(name, env, ctx)
+            a = feval(e[3][0], env, ctx)
+            if old[0] == "str" and e[2] == "push" and a[0] == "char":
+                m = re.match(r"^'(\\.|[^'\\])'$", a[1])
+                piece = ("lit", unescape(a[1][1:-1])) if m and not a[1].startswith("'\\x") else ("e", "[%s]" % a[1])
+                fput(name, ("str", old[1] + [piece]), env)
+            elif old[0] == "str" and e[2] == "push_str" and a[0] == "str":
+                fput(name, ("str", old[1] + a[1]), env)
+            elif old[0] == "list" and e[2] == "push":
+                t = ftype(a)
+                if old[1] is not None and old[1] != t: fail("push of a %s into a vector of %s" % (t, old[1]))
+                text = "[%s]" % fval(a) if old[2] == "[]" else "%s ++ [%s]" % (_fpar(old[2]), fval(a))
+                fput(name, ("list", t, text), env)
+            else:
+                fail("unsupported %s into %s" % (e[2], name))
+            return fexec(rest, env, ctx)
+        fail("an expression statement without an effect the subset knows")
+    if k == "if":
+        cond = s[1]
+        neg, c0 = False, cond
+        while c0[0] == "not":
+            neg, c0 = not neg, c0[1]
+        if c0[0] == "method" and c0[2] in ("is_none", "is_some") and not c0[3]:
+            sp = fsplit_opt(c0[1], env, ctx)
+            if sp is not None:
+                v, lv = sp
+                some_first = (c0[2] == "is_some") != neg
+                var = ctx.fresh("v", v[1])
+                e_some, e_none = env.copy(), env.copy()
+                fput(lv, ("opt", v[1], ("some", fopaque(v[1], var))), e_some)
+                fput(lv, ("opt", v[1], ("none",)), e_none)
+                t_some = fexec(list(s[2] if some_first else (s[3] or [])) + rest, e_some, ctx)
+                t_none = fexec(list((s[3] or []) if some_first else s[2]) + rest, e_none, ctx)
+                return ("matchopt", v[2][1], var, t_some, t_none)
+        c = feval(cond, env, ctx)
+        if c[0] != "cond": fail("non-boolean condition")
+        if c[1] == T: return fexec(list(s[2]) + rest, env, ctx)
+        if c[1] == F: return fexec(list(s[3] or []) + rest, env, ctx)
+        return ("ite", c[1], fexec(list(s[2]) + rest, env.copy(), ctx), fexec(list(s[3] or []) + rest, env.copy(), ctx))
+    if k == "iflet":
+        pat, e = s[1], s[2]
+        if pat[0] != "psome": fail("`if let` with a pattern other than Some(x)")
+        return fmatch_opt(e, [(pat, s[3]), (("pwild",), s[4] or [])], rest, env, ctx)
+    if k == "match":
+        scrut, arms = s[1], s[2]
+        kinds = set(p_[0] for p_, _ in arms)
+        if kinds & {"pok", "perr", "poktuple"}:
+            return fmatch_call(scrut, arms, rest, env, ctx)
+        if kinds & {"psome", "pnone"}:
+            return fmatch_opt(scrut, arms, rest, env, ctx)
+        fail("unsupported `match`")
+    if k == "for":
+        return floop(s, rest, env, ctx, "for")
+    if k == "loop":
+        return floop(s, rest, env, ctx, "loop")
+    if k == "break":
+        if ctx.mode != "loop": fail("`break` outside a loop")
+        return ("leaf", ".brk %s" % fstate(env, ctx))
+    if k == "return":
+        return fresult(s[1], env, ctx)
+    if k == "expr":
+        if rest: fail("an expression statement that is not the value of its block")
+        if ctx.mode == "loop": fail("a loop body with a value")
+        return fresult(s[1], env, ctx)
+    fail("unsupported statement %r" % (k,))
+
+def _lv_expr(name):
+    if "." in name:
+        b, f = name.split(".", 1)
+        return ("field", ("id", b), f)
+    return ("id", name)
+
+def _lift_if(i, tail):
+    if i[0] == "if": return ("if", i[1], tail(i[2]), tail(i[3]))
+    return ("iflet", i[1], i[2], tail(i[3]), tail(i[4]))
+
+def _arm_tail(body, mk):
+    """an arm of a `match` used as a value: its last expression becomes `mk(expr)`; an arm that
+    leaves (`return ..`) stays"""
+    if body and body[-1][0] == "expr": return list(body[:-1]) + [mk(body[-1][1])]
+    if body and body[-1][0] == "return": return list(body)
+    fail("a match arm without a value")
+
+def fmatch_opt(scrut, arms, rest, env, ctx):
+    inner = _strip_clone(scrut)
+    v = feval(inner, env, ctx)
+    if v[0] != "opt": fail("`match` / `if let` with Some / None patterns on a non-Option")
+    lv = flvalue(inner)
+    def arm(kind):
+        for p_, b in arms:
+            if p_[0] == kind or p_[0] == "pwild": return p_, b
+        fail("the match does not cover %s" % kind)
+    st = v[2]
+    if st[0] == "none":
+        return fexec(list(arm("pnone")[1]) + rest, env, ctx)
+    if st[0] == "some":
+        p_, b = arm("psome")
+        e2 = env.copy()
+        if p_[0] == "psome": e2.declare(p_[1], st[1])
+        return fexec(list(b) + rest, e2, ctx)
+    p_, b = arm("psome")
+    var = ctx.fresh(p_[1] if p_[0] == "psome" else "v", v[1])
+    e_some, e_none = env.copy(), env.copy()
+    inner_v = fopaque(v[1], var)
+    if lv is not None:
+        fput_any(lv, ("opt", v[1], ("some", inner_v)), e_some)
+        fput_any(lv, ("opt", v[1], ("none",)), e_none)
+    if p_[0] == "psome": e_some.declare(p_[1], inner_v)
+    t_some = fexec(list(b) + rest, e_some, ctx)
+    t_none = fexec(list(arm("pnone")[1]) + rest, e_none, ctx)
+    return ("matchopt", st[1], var, t_some, t_none)
+
+def fmatch_call(scrut, arms, rest, env, ctx):
+    cfg = ctx.cfg
+    v = feval(scrut, env, ctx)
+    if v[0] != "callres": fail("`match` with Ok / Err patterns on something that is not a call")
+    cal = cfg.callees[v[2]]
+    ok = [a for a in arms if a[0][0] in ("pok", "poktuple")]
+    er = [a for a in arms if a[0][0] == "perr"]
+    if len(ok) != 1 or len(er) != 1 or len(arms) != 2: fail("the match on a call must have the arms Ok(..) and Err(..)")
+    (okp, okb), (erp, erb) = ok[0], er[0]
+    parts = _split_prod(cal["ret"])
+    e_ok = env.copy()
+    okb = list(okb)
+    if len(parts) > 1:
+        if okp[0] == "poktuple": rnames = okp[1]
+        elif okb and okb[0][0] == "let" and okb[0][1][0] == "ptuple" and okb[0][3] == ("id", okp[1]) and len(okb[0][1][1]) == len(parts):
+            rnames = okb[0][1][1]          # `Ok(output) => { let (a, b) = output; ..`: the pattern takes the tuple apart
+        else: rnames = ["%s_%d" % (okp[1], i + 1) for i in range(len(parts))]
+        if len(rnames) != len(parts): fail("tuple pattern of the wrong size")
+        lvars = [ctx.fresh(n, t) for n, t in zip(rnames, parts)]
+        tv = ("tuple", [fopaque(t, lv_) for t, lv_ in zip(parts, lvars)])
+        if okp[0] == "poktuple":
+            for n, x in zip(okp[1], tv[1]): e_ok.declare(n, x)
+        else: e_ok.declare(okp[1], tv)
+        pat = "(%s)" % ", ".join(lvars)
+    else:
+        if okp[0] == "poktuple": fail("tuple pattern on a result that is not a tuple")
+        lv_ = ctx.fresh(okp[1], parts[0])
+        e_ok.declare(okp[1], fopaque(parts[0], lv_))
+        pat = lv_
+    if v[3] is not None:
+        sname = env.vals[v[3]][1]
+        sv = ctx.fresh(v[3], cfg.structs[sname]["lean"])
+        e_ok.vals[v[3]] = fstruct_opaque(cfg, sname, sv)
+        pat = "(%s, %s)" % (pat, sv)
+    ev = ctx.fresh(erp[1], "PErr")
+    t_ok = fexec(okb + rest, e_ok, ctx)
+    e_er = env.copy()
+    e_er.declare(erp[1], ("err", ev))
+    t_er = fexec(list(erb) + rest, e_er, ctx)
+    return ("matchcall", v[1], pat, t_ok, ev, t_er)
+
+def floop(s, rest, env, ctx, kind):
+    cfg = ctx.cfg
+    if ctx.mode == "loop": fail("nested loops")
+    body = s[4] if kind == "for" else s[1]
+    if kind == "for":
+        if not s[1].startswith("_"): fail("the loop variable %s must be unused (`_…`)" % s[1])
+        lo, hi = feval(s[2], env, ctx), feval(s[3], env, ctx)
+        if lo[0] != "nat" or hi[0] != "nat": fail("range bounds must be integers")
+        count = "%s - %s" % (_fpar(fnat(hi)), _fpar(fnat(lo)))
+    else:
+        if ctx.fn_name not in cfg.loop_fuel: fail("no fuel configured for the `loop` of %s" % ctx.fn_name)
+        count = None
+    targets = []
+    for t in fassigned(body, []):
+        if t.endswith(".*"): fail("a `&mut` call inside a loop")
+        base = t.split(".", 1)[0]
+        if base in env.vals and t not in targets: targets.append(t)
+    if not targets: fail("a loop that assigns nothing")
+    entry = {t: fget(t, env, ctx) for t in targets}
+    for t, v in entry.items():
+        if v[0] not in ("nat", "cond", "char", "str", "opt", "list"): fail("the loop assigns %s, which is not a scalar" % t)
+    def decl_pos(t):
+        base = t.split(".", 1)[0]
+        sub = 0
+        if "." in t:
+            fields = [rf for rf, lf, lt in cfg.structs[env.vals[base][1]]["fields"]]
+            sub = fields.index(t.split(".", 1)[1])
+        return (env.order.index(base) if base in env.order else -1, sub)
+    # first pass with the types known at the entry; a second pass when a leaf told more
+    types = {t: ftype(entry[t]) for t in targets}
+    for attempt in range(3):
+        order = sorted(targets, key=lambda t: (frank(types[t]), decl_pos(t)))
+        svar = "s"
+        benv = env.copy()
+        for i, t in enumerate(order):
+            ty = types[t]
+            pv = fopaque(ty, fproj(svar, i, len(order))) if ty is not None else entry[t]
+            fput(t, pv, benv)
+        snapshot_names, snapshot_vars, snapshot_aux = set(ctx.names), list(ctx.leanvars), list(ctx.aux)
+        bctx = ctx.sub("loop", order, svar)
+        bctx.aux_prefix = ctx.aux_prefix
+        tree = fexec(list(body), benv, bctx)
+        new = dict(types)
+        for lt in bctx.leaf_types:
+            for t, ty in zip(order, lt):
+                if ty is not None:
+                    if new[t] is None: new[t] = ty
+                    elif new[t] != ty: fail("the loop local %s has the types %s and %s" % (t, new[t], ty))
+        if new == types: break
+        types = new
+        ctx.names.clear(); ctx.names.update(snapshot_names)
+        del ctx.leanvars[:]; ctx.leanvars.extend(snapshot_vars)
+        del ctx.aux[:]; ctx.aux.extend(snapshot_aux)
+    else:
+        fail("the types of the loop state do not settle")
+    if any(types[t] is None for t in targets): fail("the type of a loop local cannot be inferred")
+    sty = " × ".join(_par(types[t]) if "×" in types[t] else types[t] for t in order)
+    body_text = frender(tree, 1)
+    used = [(n, ty) for n, ty in snapshot_vars if re.search(r"(?<![\w.'])%s(?![\w'])" % re.escape(n), body_text)]
+    ctx.nloops = getattr(ctx, "nloops", 0) + 1
+    bname = "%sBodyGen%s" % (ctx.aux_prefix, "" if ctx.nloops == 1 else str(ctx.nloops))
+    what = "`for %s in %s..%s`" % (s[1], _src(s[2]), _src(s[3])) if kind == "for" else "`loop`"
+    text = "/-- one iteration of the %s of `%s`; the state `s` = (%s) -/\n" % (what, ctx.fn_name, ", ".join(order))
+    text += "def %s %s (s : %s) : IStep (%s) :=\n%s\n\n" % (bname, " ".join("(%s : %s)" % u for u in used), sty, sty, body_text)
+    ctx.aux.append(text)
+    init = ftuple([fval(fcoerce(entry[t], types[t]) if ftype(entry[t]) is None else entry[t]) for t in order])
+    call = " ".join([bname] + [n for n, _ in used])
+    if kind == "for":
+        loop_text = "iFor (%s) (%s) %s" % (call, count, init)
+    else:
+        fuel = cfg.loop_fuel[ctx.fn_name](lambda n: fval(fget(n, env, ctx)))
+        loop_text = "iLoop (%s) (%s) %s" % (call, fuel, init)
+    rvar = ctx.fresh("st", sty)
+    for i, t in enumerate(order):
+        fput(t, fopaque(types[t], fproj(rvar, i, len(order))), env)
+    return ("matchloop", loop_text, rvar, fexec(rest, env, ctx))
+
+def _src(e):
+    if e[0] == "id": return e[1]
+    if e[0] == "num": return str(e[1])
+    return "…"
+
+def frender(t, indent):
+    pad = "  " * indent
+    k = t[0]
+    if k == "leaf": return pad + t[1]
+    if k == "ite":
+        return "%sif %s then\n%s\n%selse\n%s" % (pad, fcond_prop(t[1]), frender(t[2], indent + 1), pad, frender(t[3], indent + 1))
+    if k == "matchopt":
+        return "%smatch %s with\n%s| none =>\n%s\n%s| some %s =>\n%s" % (pad, t[1], pad, frender(t[4], indent + 1), pad, t[2], frender(t[3], indent + 1))
+    if k == "matchrd":
+        return "%smatch rd %s %s with\n%s| none => .panic\n%s| some %s =>\n%s" % (pad, _fpar(t[1]), _fpar(t[2]), pad, pad, t[3], frender(t[4], indent + 1))
+    if k == "matchdecr":
+        return "%smatch decr %s with\n%s| none => .panic\n%s| some %s =>\n%s" % (pad, _fpar(t[1]), pad, pad, t[2], frender(t[3], indent + 1))
+    if k == "matchcall":
+        return "%smatch %s with\n%s| .panic => .panic\n%s| .err %s =>\n%s\n%s| .ok %s =>\n%s" % (
+            pad, t[1], pad, pad, t[4], frender(t[5], indent + 1), pad, t[2], frender(t[3], indent + 1))
+    if k == "matchloop":
+        return "%smatch %s with\n%s| .panic => .panic\n%s| .err e => .err e\n%s| .ok %s =>\n%s" % (
+            pad, t[1], pad, pad, pad, t[2], frender(t[3], indent + 1))
     fail("render: %r" % (k,))
